@@ -54,6 +54,9 @@ type Sim struct {
 
 	// Gate, if set, is consulted for eligibility of ids (lock models of tier 2).
 	Gate func(id string) bool
+	// Quiesce, if set, is called by the scheduler after every synctest.Wait,
+	// i.e. when every other goroutine of the bubble is durably blocked.
+	Quiesce func()
 }
 
 // NewSim must be called inside the bubble.
@@ -262,6 +265,9 @@ func (s *Sim) Loop() {
 	var elig []*Entry
 	for {
 		synctest.Wait()
+		if s.Quiesce != nil {
+			s.Quiesce()
+		}
 		s.mu.Lock()
 		if s.live == 0 {
 			s.mu.Unlock()
